@@ -2,6 +2,7 @@ package sem
 
 import (
 	openfgav1 "github.com/openfga/api/proto/openfga/v1"
+	"strings"
 
 	"github.com/openfga/openfga/verifharness/drive"
 	"github.com/openfga/openfga/verifharness/ref"
@@ -154,5 +155,32 @@ func ClassifyCheck(prefix string, rc *ref.Case, rq Request, k ref.Tri, o drive.O
 			return prefix + "-" + FindingSubtractCycle
 		}
 	}
+	return ""
+}
+
+// ClassifyList attributes a ListObjects deviation on one object (returned although not permitted:
+// extra=true; omitted although permitted: extra=false) to a known finding of the list engines.
+// Returns "" when no listed deviation model explains it.
+func ClassifyList(prefix, engine string, p *Prepared, rc *ref.Case, object, relation, user string, extra bool) string {
+	return ""
+}
+
+// ClassifyListError attributes an unexpected ListObjects error to a known finding.
+func ClassifyListError(prefix, engine string, p *Prepared, typ, relation, user string, err error) string {
+	// FindingDegenerateIntersection: the weighted reverse expansion (enable-list-objects-optimizations)
+	// fails with an internal error when an intersection of the model collapses to a single edge in the
+	// weighted graph (e.g. "viewer from parent and viewer from parent").
+	if strings.HasPrefix(engine, "optimized") && err != nil && strings.Contains(drive.ErrDetail(err), "operation: intersection: invalid edges for source type") {
+		return prefix + "-" + FindingDegenerateIntersection
+	}
+	return ""
+}
+
+// FindingDegenerateIntersection names the finding matched by ClassifyListError.
+const FindingDegenerateIntersection = "optimized-degenerate-intersection-error"
+
+// ClassifyLimit attributes a wrong result count under a limit to a known finding: when the
+// shortfall/excess is explained by the per-object deviation models.
+func ClassifyLimit(prefix, engine string, rc *ref.Case, relation, user string, want, got []string, mode drive.Mode) string {
 	return ""
 }
